@@ -82,7 +82,19 @@ class StmtMixin:
                 break
         return done + [Outcome("normal", x) for x in live]
 
+    def check_binds(self, holder, env, what):
+        """every parameter of a loop invariant / lemma must name a variable that exists at that point of the real function: a
+        renamed or removed local makes the sidecar stale - that is 'contract does not bind' (the function leaves the verified set
+        and the bounded stand-in decides), never a failed obligation"""
+        for p in holder.params:
+            if p in ("_it", "_seq", "_outer_it", "_outer_seq", "self") or p in env:
+                continue
+            if p.startswith("pre_") and p[4:] in env:
+                continue
+            raise Untranslatable(f"{what}: parameter `{p}` is not a variable of the function at this point (sidecar out of date: renamed local?)")
+
     def cut_lemma(self, holder, lname, st, fr, s):
+        self.check_binds(holder, st.env, f"lemma {lname}")
         spec_fr = Frame(fr.fi, fr.contract, fr.cls, kind="spec")
         self.init_frame(spec_fr)
         spec_fr.old_state = fr.entry_state
@@ -490,6 +502,7 @@ class StmtMixin:
         if kind == "for":
             seq, elem = self.iter_view(src, s, st, fr)
         pre_env = dict(st.env)
+        self.check_binds(inv, st.env, f"loop invariant {ordinal}")
 
         def inv_clauses(state: St, it):
             spec_fr = Frame(fr.fi, fr.contract, fr.cls, kind="spec")
